@@ -43,6 +43,18 @@ theorem malformed_struct_rejected_at_init (st : Msg.GoStruct) (h : Spec.Msg.ofGo
 theorem initialize_accepts_exactly_definitions (st : Msg.GoStruct) :
     (∃ rw, Msg.init st = .ok rw) ↔ (Spec.Msg.ofGo st).isSome = true := InitSound.accepted_iff_definition st
 
+/-- **C17 (initialisation decides, in terms of definitions).** A dialect initialises exactly when its message ids are pairwise
+    distinct and every message struct is a MAVLink definition. -/
+theorem dialect_init_iff_definitions (msgs : List (UInt32 × Msg.GoStruct)) :
+    (∃ tbl, Dialect.init msgs [] = .ok tbl) ↔
+      (msgs.map (·.1)).Nodup ∧ ∀ m ∈ msgs, (Spec.Msg.ofGo m.2).isSome = true := by
+  rw [dialect_init_iff]
+  constructor
+  · rintro ⟨h1, h2⟩
+    exact ⟨h1, fun m hm => (initialize_accepts_exactly_definitions m.2).mp (h2 m hm)⟩
+  · rintro ⟨h1, h2⟩
+    exact ⟨h1, fun m hm => (initialize_accepts_exactly_definitions m.2).mpr (h2 m hm)⟩
+
 /-- **C17 (… not at first use).** For a struct `Initialize` accepts the byte-wide sizes did not wrap: the hypothesis `RWok` of
     every C04 theorem (decoding never panics, encoding a well-typed value succeeds and round-trips; `C04.accepted_struct_usable`). -/
 theorem accepted_struct_sizes_exact (st : Msg.GoStruct) (rw : Msg.RW) (h : Msg.init st = .ok rw) : Msg.RWok rw :=
